@@ -31,7 +31,8 @@ PROPS = {
                        'in an owned per-call parameter; hence calls are pure functions of their arguments',
     },
     'C03': {
-        'extra': [('pyvc-own(copy-before-write)', extras.cow_check), ('SET ordering', extras.set_order_check)],
+        'extra': [('pyvc-own(copy-before-write)', extras.cow_check), ('SET ordering', extras.set_order_check),
+                  ('memo-key', extras.memo_key_check)],
         'assumptions': [GRAPH, 'SET member ordering, SET OF sorting, named-bit trailing-zero removal and DEFAULT omission in '
                         'MembersType are not under contract yet (see DESIGN.md, known defects 3, 4, 19, 21)',
                         'time types and REAL contents are not under contract'],
@@ -129,7 +130,8 @@ PROPS = {
     },
     'C19': {
         'level': 'other',
-        'extra': [('pyvc-own(copy-before-write)', extras.cow_check), ('module threading', extras.module_threading_check)],
+        'extra': [('pyvc-own(copy-before-write)', extras.cow_check), ('module threading', extras.module_threading_check),
+                  ('memo-key', extras.memo_key_check)],
         'needs_contracts': False,
         'assumptions': ['DEFAULT conversion through type references (parser.convert_value), the transitive copy through '
                         'ExplicitTag.inner, permutation of assignments/modules/files and the duplicate-name rule of '
@@ -142,7 +144,7 @@ PROPS = {
     'C13': {
         'level': 'other',
         'extra': [('module threading', extras.module_threading_check), ('pyvc-own(copy-before-write)', extras.cow_check),
-                  ('pre_process coverage', extras.preprocess_coverage_check)],
+                  ('pre_process coverage', extras.preprocess_coverage_check), ('memo-key', extras.memo_key_check)],
         'needs_contracts': False,
         'assumptions': ['idempotence / option-independence of the in-place pre-processing passes (automatic tagging, implied '
                         'extension marker, COMPONENTS OF, default conversion) is NOT under contract; known defect 12 (ENUMERATED '
